@@ -52,7 +52,7 @@ def run(ctx):
     for i in range(nruns):
         behaviours += ctx.tlc_simulate("trie", "ProofMBT.tla", "Proof_sim.cfg", depth=41 * per_run,
                                        seed=ctx.seed * 1000 + i, timeout=900)
-    res = ctx.run_engine(binary, "TestProofReplay", {"h": 4, "maxv": 2, "behaviours": behaviours}, timeout=3000)
+    res = ctx.run_engine(binary, "TestProofReplay", {"h": 4, "maxv": 3, "behaviours": behaviours}, timeout=3000)
     ctx.absorb(res, "trie", "TestProofReplay")
     ctx.coverage["behaviours_proof"] = len(behaviours)
     ctx.coverage["queries_replayed"] = res.get("steps", 0)
